@@ -167,21 +167,31 @@ theorem layout_strict_order (cols : Int) (l : List Item) (col row : Int)
     (hw : ∀ it ∈ l, it.brk = false → 0 < it.w) :
     List.Pairwise before (layout cols l col row).1 := layout_pairwise cols l col row hw
 
-/-- Each non-break cluster goes to exactly one `SetCell`, in text order, never split. -/
-theorem layout_one_call_per_cluster (cols : Int) (l : List Item) (col row : Int) :
-    (layout cols l col row).1.map (·.cell) = (l.filter (fun it => !it.brk)).map Item.cell :=
-  layout_cells cols l col row
+/-- Each non-break cluster that can be shown inside the window (not wider than it) goes to exactly
+one `SetCell`, in text order, never split; the others to none. -/
+theorem layout_one_call_per_cluster (cols : Int) (l : List Item) (col row : Int) (hcol : 0 ≤ col)
+    (hw : ∀ it ∈ l, 0 ≤ it.w) :
+    (layout cols l col row).1.map (·.cell) =
+      (l.filter (fun it => !it.brk && decide (it.w ≤ cols))).map Item.cell :=
+  layout_cells cols l col row hcol hw
 
-/-- The pen rule itself: a cluster is written at the pen; the column advances by its width; a new
-row starts exactly when the row is full (`col + w ≥ cols`) or at a break. -/
+/-- The pen rule itself: a break starts a new row; a cluster that is wider than the window is not
+written; otherwise the cluster is written at the pen — or at the start of the next row when it does
+not fit in the rest of this one — the column advances by its width, and a new row starts when the
+row is full (`col + w ≥ cols`). -/
 theorem layout_step (cols : Int) (it : Item) (rest : List Item) (col row : Int) :
     layout cols (it :: rest) col row =
       if it.brk then layout cols rest 0 (row + 1)
+      else if col + it.w > cols ∧ it.w > cols then layout cols rest col row
       else
-        let p := if col + it.w ≥ cols then ((0 : Int), row + 1) else (col + it.w, row)
-        ({ col := col, row := row, cell := it.cell } :: (layout cols rest p.1 p.2).1,
+        let q := if col + it.w > cols then ((0 : Int), row + 1) else (col, row)
+        let p := if q.1 + it.w ≥ cols then ((0 : Int), q.2 + 1) else (q.1 + it.w, q.2)
+        ({ col := q.1, row := q.2, cell := it.cell } :: (layout cols rest p.1 p.2).1,
          (layout cols rest p.1 p.2).2) := by
-  simp only [layout, advance]
+  simp only [layout, advance, fitPen]
+  split
+  · rfl
+  · split <;> rfl
 
 /-- `Println`: the calls are exactly the single-line layout. -/
 theorem println_is_layout (lib : Lib) (rm : Bool) (win : Win) (row : Int) (segs : List (Nat × List Raw))
@@ -223,6 +233,99 @@ theorem wrap_order (lib : Lib) (rm : Bool) (win : Win) (segs : List (Nat × List
 theorem layoutLine_order (cols row : Int) (l : List Item) (col : Int) (hw : ∀ it ∈ l, 0 < it.w) :
     List.Pairwise before (layoutLine cols row l col) := layoutLine_pairwise cols row l col hw
 
+/-! ## No cluster extends beyond the window (F111 repaired)
+
+Observed through the terminal, a cluster of display width `w` written at column `c` occupies the
+columns `c … c+w-1`.  Every `SetCell` call of the four text helpers that the window accepts has
+`c + w ≤ width`: the cluster lies inside the window's own row, continuation columns included.  In a
+right-nested chain (every chain built with `vx.Window()` and `New`) those columns are then inside
+the clip region as well. -/
+
+theorem print_fits (lib : Lib) (rm : Bool) (win : Win) (segs : List (Nat × List Raw)) :
+    ∀ o ∈ (printOps lib rm win segs).1, o.col + o.cell.w ≤ win.width := by
+  obtain ⟨d, hd, _⟩ := print_is_layout lib rm win segs
+  intro o ho
+  exact layout_fits win.width _ 0 0 o (by rw [hd]; exact List.mem_append_left _ ho)
+
+theorem wrap_fits (lib : Lib) (rm : Bool) (win : Win) (segs : List (Nat × List (List Raw))) :
+    ∀ o ∈ (wrapOps lib rm win segs).1, o.col + o.cell.w ≤ win.width := by
+  obtain ⟨d, hd, _⟩ := wrap_is_layout lib rm win segs
+  intro o ho
+  exact layoutWrap_fits win.width _ 0 0 o (by rw [hd]; exact List.mem_append_left _ ho)
+
+theorem println_fits (lib : Lib) (rm : Bool) (win : Win) (row : Int) (segs : List (Nat × List Raw)) :
+    ∀ o ∈ printlnOps lib rm win row segs, o.col + o.cell.w ≤ win.width := by
+  intro o ho
+  by_cases hrow : row < win.height
+  · rw [println_is_layout lib rm win row segs hrow] at ho
+    exact layoutLine_fits win.width row _ 0 o ho
+  · simp only [printlnOps, show row ≥ win.height by omega, if_true] at ho; cases ho
+
+/-- `PrintTruncate`: a call fits or is rejected by the window itself (`col ≥ width`: the ellipsis in
+a window without columns). -/
+theorem printTruncate_fits (lib : Lib) (rm : Bool) (win : Win) (row : Int) (segs : List (Nat × List Raw)) :
+    ∀ o ∈ printTruncateOps lib rm win row segs, win.width ≤ o.col ∨ o.col + o.cell.w ≤ win.width := by
+  intro o ho
+  by_cases hrow : row < win.height
+  · rw [printTruncate_is_layout lib rm win row segs hrow] at ho
+    exact layoutTrunc_fits win.width row _ 0 o ho
+  · simp only [printTruncateOps, show row ≥ win.height by omega, if_true] at ho; cases ho
+
+/-- `New` (and `vx.Window()`) build right-nested chains, whatever the arguments. -/
+theorem new_rightNested (win : Win) (hn : rightNested win) (c r W H : Int) :
+    rightNested (win.new c r W H) := rightNested_new win hn c r W H
+
+theorem window_rightNested (s : Screen) : rightNested (Win.ofScreen s) := rightNested_ofScreen s
+
+/-- **cluster_extent_clip.** A call `SetCell(c, r, cell)` that fits in the window's row
+(`c + w ≤ width`) and whose cell is accepted (its target is in the clip region) has every column
+`c … c+w-1` of the cluster in the clip region of a right-nested chain. -/
+theorem cluster_extent_clip (win : Win) (hn : rightNested win) (o : Op)
+    (hfit : o.col + o.cell.w ≤ win.width)
+    (hv : covers win ((win.origin).1 + o.col) ((win.origin).2 + o.row)) (i : Int) (h0 : 0 ≤ i) (hi : i < o.cell.w) :
+    covers win ((win.origin).1 + o.col + i) ((win.origin).2 + o.row) := by
+  rw [origin_eq_absOrigin] at hv ⊢
+  exact covers_extend win hn _ _ _ hv (by omega) (by omega)
+
+/-- **text_extent_clip.** For `Print`, `Wrap`, `Println` and `PrintTruncate` on a right-nested
+chain: every cluster written into the clip region occupies only columns of the clip region — what
+the terminal shows after a `Render` changes only there (given the glyph also fits in the screen's
+row; otherwise the renderer shows a blank, C01 `frame_displays`). -/
+theorem text_extent_clip (lib : Lib) (rm : Bool) (win : Win) (hn : rightNested win) (o : Op)
+    (hmem : (∃ segs, o ∈ (printOps lib rm win segs).1) ∨ (∃ segs, o ∈ (wrapOps lib rm win segs).1) ∨
+            (∃ row segs, o ∈ printlnOps lib rm win row segs) ∨ (∃ row segs, o ∈ printTruncateOps lib rm win row segs))
+    (hv : covers win ((win.origin).1 + o.col) ((win.origin).2 + o.row)) (i : Int) (h0 : 0 ≤ i) (hi : i < o.cell.w) :
+    covers win ((win.origin).1 + o.col + i) ((win.origin).2 + o.row) := by
+  have hfit : o.col + o.cell.w ≤ win.width := by
+    rcases hmem with ⟨segs, h⟩ | ⟨segs, h⟩ | ⟨row, segs, h⟩ | ⟨row, segs, h⟩
+    · exact print_fits lib rm win segs o h
+    · exact wrap_fits lib rm win segs o h
+    · exact println_fits lib rm win row segs o h
+    · rcases printTruncate_fits lib rm win row segs o h with h' | h'
+      · -- rejected by the window's own guard: contradiction with `hv`
+        have hown := covers_own win _ _ (by rw [origin_eq_absOrigin] at hv; exact hv)
+        unfold inOwnRect at hown; omega
+      · exact h'
+  exact cluster_extent_clip win hn o hfit hv i h0 hi
+
+/-- The hypothesis `rightNested` is needed: a struct-literal child wider than its parent (columns
+0..3 under a 2-column parent) accepts 世 (width 2) at column 1 — inside both windows — and its right
+half lies in column 2, outside the parent. -/
+example :
+    let par := Win.root 0 0 2 1
+    let ch := par.direct 0 0 4 1
+    let ops := (printOps ⟨fun g => if g = 6 then 2 else 1, fun _ => false, fun _ => false⟩ true ch
+      [(0, [⟨5, 1, false⟩, ⟨6, 2, false⟩])]).1
+    ops.map (fun o => (o.col, o.row, o.cell.w)) = [(0, 0, 1), (1, 0, 2)] ∧
+    ¬ rightNested ch ∧ covers ch 1 0 ∧ ¬ covers ch 2 0 := by decide
+
+/-- Non-vacuity / the F111 input: `Print("aa世")` in a 3-column window now puts 世 on the next row. -/
+example :
+    let A := (Win.root 0 0 4 2).new 0 0 3 2
+    ((printOps ⟨fun g => if g = 6 then 2 else 1, fun _ => false, fun _ => false⟩ true A
+      [(0, [⟨5, 1, false⟩, ⟨5, 1, false⟩, ⟨6, 2, false⟩])]).1.map (fun o => (o.col, o.row))
+      = [(0, 0), (1, 0), (0, 1)]) ∧ rightNested A := by decide
+
 /-! ## The model's shape-fixed facts are the source's (regenerated by the extractor each run)
 
 `R` = receiver, `Pn` = n-th parameter, `Sn` = n-th result of `Size()`, `N` = the new window,
@@ -260,10 +363,11 @@ theorem facts_characters_tab :
     tabLoop = ["I:=0", "I<8", "I+=1"] ∧ tabCell = "Character{\" \", 1}" := by decide +kernel
 
 open VaxisModel.Gen.WindowFacts in
-/-- `remeasure`, `measured`, and the pen conditions of Print / PrintTruncate / Println. -/
+/-- `remeasure`, `measured`, and the pen conditions of Print (with the fit test of the F111 repair:
+`col+Width>cols`, then `Width>cols`) / PrintTruncate / Println. -/
 theorem facts_text_helpers :
     remeasurePrint = ["if !R.Vx.caps.unicodeCore||!R.Vx.caps.explicitWidth { E(Characters(E(P0).Text)).Width=R.Vx.characterWidth(E(Characters(E(P0).Text)).Grapheme) }"] ∧
-    condsPrint = ["strings.ContainsRune(E(Characters(E(P0).Text)).Grapheme,'\\n')", "row>S1", "col>=S0"] ∧
+    condsPrint = ["strings.ContainsRune(E(Characters(E(P0).Text)).Grapheme,'\\n')", "row>S1", "col+E(Characters(E(P0).Text)).Width>S0", "E(Characters(E(P0).Text)).Width>S0", "col>=S0"] ∧
     remeasurePrintTruncate = ["if !R.Vx.caps.unicodeCore||!R.Vx.caps.explicitWidth { E(Characters(E(P1).Text)).Width=R.Vx.characterWidth(E(Characters(E(P1).Text)).Grapheme) }"] ∧
     condsPrintTruncate = ["P0>=S1", "col+truncator.Width+w>S0"] ∧
     remeasurePrintln = ["if !R.Vx.caps.unicodeCore||!R.Vx.caps.explicitWidth { E(Characters(E(P1).Text)).Width=R.Vx.characterWidth(E(Characters(E(P1).Text)).Grapheme) }"] ∧
@@ -275,7 +379,7 @@ open VaxisModel.Gen.WindowFacts in
 theorem facts_wrap :
     wrapStoresWidth = true ∧
     remeasureWrap = ["if !R.Vx.caps.unicodeCore||!R.Vx.caps.explicitWidth { E(chars).Width=R.Vx.characterWidth(E(chars).Grapheme); chars[K(chars)].Width=E(chars).Width }"] ∧
-    condsWrap = ["row>=S1", "case total>S0", "case total+col>S0", "uniseg.HasTrailingLineBreakInString(E(chars).Grapheme)", "col>=S0"] := by
+    condsWrap = ["row>=S1", "case total>S0", "case total+col>S0", "uniseg.HasTrailingLineBreakInString(E(chars).Grapheme)", "col+E(chars).Width>S0", "E(chars).Width>S0", "col>=S0"] := by
   decide +kernel
 
 /-- The extractor recognised every shape it looks for in window.go / screen.go / character.go. -/
@@ -292,7 +396,7 @@ example :
     (w2.setCell s 1 0 ⟨7, 1, 3⟩).get 2 1 = some ⟨7, 1, 3⟩ ∧ w2.origin = (1, 1) ∧
     (w2.setCell s (-1) 0 ⟨7, 1, 3⟩).get 0 1 = some default := by decide
 
-example : (layout 3 [⟨5, 2, false, 0⟩, ⟨6, 2, false, 0⟩, ⟨0, 0, true, 0⟩, ⟨7, 1, false, 0⟩] 0 0).1.map (fun o => (o.col, o.row))
-    = [(0, 0), (2, 0), (0, 2)] := by decide
+example : (layout 3 [⟨5, 2, false, 0⟩, ⟨6, 2, false, 0⟩, ⟨0, 0, true, 0⟩, ⟨7, 1, false, 0⟩, ⟨8, 4, false, 0⟩] 0 0).1.map (fun o => (o.col, o.row))
+    = [(0, 0), (0, 1), (0, 2)] := by decide
 
 end VaxisModel.Props.C11
